@@ -109,6 +109,20 @@ def run(ctx):
             st, dec = second[b]["foreign_dec_bytes"][i]
             if st != "ok" or tagged(dec) != tv:
                 ctx.violation("cross_round_trip_bytes", f"{b} decoding the other backend's UTF-8 bytes gave {dec!r} != v", case)
+            for key in ("file_text", "file_binary"):
+                fr = first[b][key][i] if i < len(first[b][key]) else None
+                if fr is None:
+                    continue
+                ctx.count("file_round_trips")
+                other = first["stdlib" if b == "orjson" else "orjson"][key][i]
+                if fr[0] != "ok":
+                    mech = "file_api_backend_dependent" if other and other[0] == "ok" else "file_api_failed"
+                    ctx.violation(mech, f"{b}: dump()/load() on a {'text' if key == 'file_text' else 'binary'} file failed "
+                                  f"({fr[1]})" + (" while the other backend succeeds" if mech.endswith("dependent") else ""), case)
+                else:
+                    raw, dec = fr[1]
+                    if tagged(dec) != tv:
+                        ctx.violation("file_round_trip", f"{b}: load(dump(v)) on a {key} gave {dec!r}", case)
             shapes.append(first[b]["enc"][i][1] if first[b]["enc"][i][0] == "ok" else None)
         nontrivial = isinstance(v, (list, dict)) or (isinstance(v, str) and len(v) > 0) or isinstance(v, (int, float))
         ctx.record(case, shape=None, nontrivial=nontrivial,
